@@ -384,7 +384,8 @@ LEAVES = {
     'str-marker': ["'__tuple__'", "'_type'", "'n_:5'", "'n_:'", "'n_:x'",
                    "'type'", "'function'"],
     'opaque': ["b''", r"b'\x00\xff'", 'datetime.date(2020, 1, 2)',
-               'complex(1, 2)', 'frozenset([1, 2])', 'range(3)'],
+               'complex(1, 2)', 'frozenset([1, 2])', 'range(3)', 'set([1, 2])',
+               "bytearray(b'ab')"],
     'type': ['int', 'str', 'type(None)', 'C05Leaf', 'C05Leaf.Inner', 'pg.Dict',
              'typing.List[int]', 'list[int]', 'typing.Dict[str, int]',
              'typing.Optional[int]', 'typing.Any', '...'],
@@ -485,7 +486,7 @@ def value_universe(tier, seed):
   for (sn, sf) in SHAPES:
     for cls, s in _leaf_items():
       if cls != 'missing':   # MISSING_VALUE inside a container means 'absent'.
-        out += emit(f'{sn}/{cls}', sf(s, '0'))
+        out += emit(f'depth1/{sn}', sf(s, '0'))
   # keys x holders.
   for hn, hf in KEY_HOLDERS:
     for k in KEYS:
@@ -493,23 +494,23 @@ def value_universe(tier, seed):
   for s in TUPLEISH:
     out += emit('tuple-ish', s)
   # depth 2: shape x shape x representative leaves.
-  reps = ONE_PER_CLASS if tier == 'thorough' else ONE_PER_CLASS[:5]
+  reps = ONE_PER_CLASS if tier == 'thorough' else ONE_PER_CLASS[:4]
   for (on, of) in SHAPES:
     for (inn, inf_) in SHAPES:
       for s in reps:
-        out += emit(f'{on}>{inn}', of(inf_(s, "'f'"), '(1, 2.5)'))
+        out += emit('depth2', of(inf_(s, "'f'"), '(1, 2.5)'))
   # depth 3: all shape chains with two leaves (thorough) / seeded sample.
   chains = list(itertools.product(SHAPES, SHAPES, SHAPES))
   r = rng(seed, 'c05-depth3')
   if tier != 'thorough':
-    chains = r.sample(chains, 150)
+    chains = r.sample(chains, 100)
   leaves3 = [s for c, s in _leaf_items() if c != 'missing']
   for (a, b, c) in chains:
     picks = [r.choice(leaves3), r.choice(ONE_PER_CLASS)]
     if tier == 'thorough':
       picks.append(r.choice(leaves3))
     for s in picks:
-      out += emit(f'{a[0]}>{b[0]}>{c[0]}',
+      out += emit('depth3',
                   a[1](b[1](c[1](s, 'None'), r.choice(ONE_PER_CLASS)), "'g'"))
   return out
 
@@ -638,13 +639,13 @@ def drv_json_values(tier, seed):
       scope='values as source strings: all leaves (ints, special floats, control/unicode/'
             'marker-like strings, opaque, types, functions) x 13 container shapes at depth 1; '
             'all keys x 6 holders; tuple/marker corner list; shape^2 x representatives; '
-            'shape^3 chains (quick: 150 seeded chains, thorough: all 2197) ; forms obj/str(/indent)')
+            'shape^3 chains (quick: 100 seeded chains, thorough: all 2197) ; forms obj/str(/indent)')
   uni = value_universe(tier, seed)
   for label, src in uni:
     for form in ('obj', 'str'):
       record_json(rec, label, src, form)
   # indentation must not matter (string form only, on a slice of the universe).
-  step = 3 if tier == 'thorough' else 11
+  step = 3 if tier == 'thorough' else 17
   for label, src in uni[::step]:
     record_json(rec, label, src, 'str-indent')
   return rec.result()
@@ -1004,17 +1005,22 @@ _SPEC_ATTRS = ['default', 'has_default', 'is_noneable', 'frozen', 'value_type',
 
 
 def _spec_behaviour_diff(s, r, partial_modes=(False, True)):
+  prev = _LOOSE[0]
+  _LOOSE[0] = True      # see _LOOSE: defaults of class schemas are symbolic.
+  try:
+    return _spec_behaviour_diff_impl(s, r, partial_modes)
+  finally:
+    _LOOSE[0] = prev
+
+
+def _spec_behaviour_diff_impl(s, r, partial_modes):
   if isinstance(s, pg.typing.ValueSpec):
     for name in _SPEC_ATTRS:
       a, b = outcome(getattr, s, name), outcome(getattr, r, name)
       if a[0] != b[0]:
         return f'attribute {name}: {a} -> {b}'
       if a[0] == 'ok':
-        _LOOSE[0] = True
-        try:
-          d = diff_value(a[1], b[1])
-        finally:
-          _LOOSE[0] = False
+        d = diff_value(a[1], b[1])
         if d:
           return f'attribute {name}{d}'
     ra = getattr(getattr(s, 'regex', None), 'pattern', None)
@@ -1044,7 +1050,7 @@ def _spec_behaviour_diff(s, r, partial_modes=(False, True)):
       d = diff_value(getattr(s, name), getattr(r, name))
       if d:
         return f'field.{name}{d}'
-    return _spec_behaviour_diff(s.value, r.value, partial_modes)
+    return _spec_behaviour_diff_impl(s.value, r.value, partial_modes)
   elif isinstance(s, pg.typing.Schema):
     for name in ('name', 'description', 'allow_nonconst_keys', 'metadata'):
       d = diff_value(getattr(s, name), getattr(r, name))
@@ -1053,7 +1059,7 @@ def _spec_behaviour_diff(s, r, partial_modes=(False, True)):
     if list(s.keys()) != list(r.keys()):
       return f'schema keys {list(s.keys())} -> {list(r.keys())}'
     for k in s.keys():
-      d = _spec_behaviour_diff(s[k], r[k], partial_modes)
+      d = _spec_behaviour_diff_impl(s[k], r[k], partial_modes)
       if d:
         return f'field {k!r}: {d}'
     for allow_partial in partial_modes:
@@ -1095,7 +1101,7 @@ def spec_universe(tier, seed):
     out.append((EMPTY_SCHEMA, s))
   r = rng(seed, 'c05-specs')
   for wn, wf in SPEC_WRAPPERS:
-    pool = SPECS if tier == 'thorough' else r.sample(SPECS, 9) + [
+    pool = SPECS if tier == 'thorough' else r.sample(SPECS, 6) + [
         x for x in SPECS if '/' in x[0]]
     for tag, s in pool:
       out.append((tag if '/' in tag else f'spec/{wn}', wf.format(s=s)))
@@ -1108,7 +1114,7 @@ def drv_specs(tier, seed):
       scope=f'{len(SPECS)} value specs covering every constructor argument of every spec class '
             '(default/no default/noneable/frozen/bounds/sizes/regex/transform/nested), '
             f'{len(KEY_SPECS)} key specs, {len(SCHEMAS)} schemas incl. class schemas, specs wrapped in '
-            'Field/Schema/List/Tuple/Dict/Union (quick: seeded 9 per wrapper, thorough: all); forms obj/str; '
+            'Field/Schema/List/Tuple/Dict/Union (quick: seeded 6 per wrapper, thorough: all); forms obj/str; '
             'oracle: ==, type, repr, every public attribute, apply() on 58 probe values x allow_partial '
             'differential (original vs restored), is_compatible both ways')
   for label, src in spec_universe(tier, seed):
@@ -1116,7 +1122,7 @@ def drv_specs(tier, seed):
     modes = (False, True) if tier == 'thorough' else (False,)
     for form in ('obj', 'str'):
       ok, r = record_json(rec, label, src, form, cid=special or f'{label}/{form}')
-      if not ok:
+      if not ok or (form == 'obj' and tier != 'thorough'):
         continue
       s = ev(src)
       d = outcome(_spec_behaviour_diff, s, r, modes)
@@ -1221,7 +1227,7 @@ def geno_universe(tier, seed):
   for _ in range(n3):
     lvl3.append(r.choice(GENO_COMBINE)(r.choice(lvl2), r.choice(lvl1 + lvl2)))
   if tier != 'thorough':
-    lvl2 = r.sample(lvl2, 12)
+    lvl2 = r.sample(lvl2, 9)
   out = [('geno/point', s) for s in lvl1]
   out += [('geno/depth2', s) for s in lvl2] + [('geno/depth3', s) for s in lvl3]
   out += [('geno/from-hyper', s) for s in GENO_FROM_HYPER]
@@ -1277,7 +1283,7 @@ def drv_geno_dna(tier, seed):
   rec = Recorder(
       'C05', 'pg.geno search-space specs, hyper values and DNA: JSON round trip',
       scope='19 decision points (every argument of floatv/oneof/manyof/custom) x 5 combinators to depth 3 '
-            '(quick: 12 depth-2 + 8 depth-3 seeded; thorough: all depth-2 + 400 depth-3) + specs from '
+            '(quick: 9 depth-2 + 8 depth-3 seeded; thorough: all depth-2 + 400 depth-3) + specs from '
             'pg.dna_spec(hyper values); hyper values; DNA: 35 hand-made shapes (leaf types, special floats, '
             'marker-like strings, nesting, root/child metadata, cloneable keys) + first-N/random DNAs of '
             'each spec; forms obj/str, compact and compact=False')
@@ -1289,7 +1295,7 @@ def drv_geno_dna(tier, seed):
     for form in ('obj', 'str'):
       ok, back = record_json(rec, label, src, form)
       spec_ok = spec_ok and ok
-      if ok and (tier == 'thorough' or (form == 'str' and n % 2 == 0)):
+      if ok and (tier == 'thorough' or (form == 'str' and n % 3 == 0)):
         a, b = _spec_observations(ev(src)), _spec_observations(back)
         rec.case(f'{label}-behaviour', (src, form), a == b,
                  'observations differ: ' + repr({k: (a[k], b[k]) for k in a if a[k] != b[k]}),
@@ -1361,7 +1367,7 @@ _APPENDS = ["'+'", r"'tail\n' * 3"]
 _BYTES = ["b''", r"b'\x00'", r"b'a\r\nb\rc\n\xff\xfe'", r"b'\x01\x02' * 1500"]
 _BAPPENDS = [r"b'\r'", r"b'\xff' * 9"]
 _SAVE_VALUES = ['0', "'x' * 40", "{'a': [1, (2, 3)], 5: 'x', 'f': -0.0}",
-                "C05Leaf([1.5, None, {'k': C05Leaf('v' * 90)}])"]
+                "C05Leaf([1.5, None, {'k': C05Pair.partial(right='v' * 90)}])"]
 
 _LAYERS = {
     # layer: (write contents, append contents)
@@ -1882,6 +1888,8 @@ def _mutable_ids(v, acc=None):
     acc.add(id(v))
     for c in v.values():
       _mutable_ids(c, acc)
+  elif isinstance(v, (set, bytearray)):
+    acc.add(id(v))
   return acc
 
 
@@ -1910,11 +1918,14 @@ def copy_check(src, method):
     return False, 'exc', f'{type(e).__name__}: {e}', base
   r = env['r']
   deep = method == 'deepcopy'
-  d = diff_value(v, r, check_spec=deep)
+  # value specs of stand-alone typed containers are not part of the pickled /
+  # JSON state (only schema-derived ones are re-established): see FLAGGED.
+  check_spec = deep or 'value_spec=' not in src
+  d = diff_value(v, r, check_spec=check_spec)
   if not d and deep and isinstance(v, (pg.List, pg.Dict)) and v.value_spec != r.value_spec:
     d = f'root value_spec {v.value_spec!r} -> {r.value_spec!r}'
   if d:
-    return False, 'value', d, base + helper + f'assert_same(v, r, check_spec={deep})\n' + (
+    return False, 'value', d, base + helper + f'assert_same(v, r, check_spec={check_spec})\n' + (
         'assert getattr(v, "value_spec", None) == getattr(r, "value_spec", None)\n' if deep else '')
   if type(r) is not type(v):
     return (False, 'type', f'type {type(v).__name__} -> {type(r).__name__}',
@@ -1960,12 +1971,12 @@ def drv_pickle_deepcopy(tier, seed):
             'to be dropped); code-marshalled functions (lambdas) are excluded from pickle')
   r = rng(seed, 'c05-copy')
   uni = value_universe('quick', seed)
-  shallow = [(l, s) for l, s in uni if '>' not in l]
-  deeper = [(l, s) for l, s in uni if '>' in l]
-  deeper = deeper if tier == 'thorough' else r.sample(deeper, 120)
+  shallow = [(l, s) for l, s in uni if not l.startswith(('depth2', 'depth3'))]
+  deeper = [(l, s) for l, s in uni if l.startswith(('depth2', 'depth3'))]
+  deeper = deeper if tier == 'thorough' else r.sample(deeper, 80)
   if tier != 'thorough':
     shallow = shallow[::2] + [(l, s) for l, s in shallow if l == 'tuple-ish']
-  items = [(l.split('/')[0].split('>')[0], s) for l, s in shallow + deeper]
+  items = [(l.split('/')[0], s) for l, s in shallow + deeper]
   items += [('typed', s) for s in typed_universe('quick', seed)[:: (1 if tier == 'thorough' else 3)]]
   items += [('flagged', s) for s in FLAGGED + PARTIALS]
   specs = [s for _, s in SPECS] + KEY_SPECS + SCHEMAS
